@@ -1790,6 +1790,7 @@ func storageCallee(cc *ssa.CallCommon) (string, bool) {
 }
 
 func Errs(w *load.World, c *core.Collector) {
+	txOutcomeReturned(w, c)
 	props := []string{"C07"}
 	var roots []*ssa.Function
 	for _, cb := range txCallbacks(w) {
@@ -2146,4 +2147,116 @@ func knownNilAt(v ssa.Value, b *ssa.BasicBlock) bool {
 		}
 	}
 	return false
+}
+
+// txOutcomeReturned: the error a write transaction ends with is the caller's to hear. At every call
+// of the store's Write the error result flows into a return of the calling function (as it is,
+// wrapped, through a named result or a cell), or is handed on (stored in a field, sent). An error
+// that is only logged — typically an `err :=` in an inner block that shadows the variable the
+// function returns — turns a rolled-back transaction into a reported success.
+func txOutcomeReturned(w *load.World, c *core.Collector) {
+	isErr := func(t types.Type) bool { return isErrorType(t) }
+	var flows func(v ssa.Value, seen map[ssa.Value]bool, depth int) bool
+	flows = func(v ssa.Value, seen map[ssa.Value]bool, depth int) bool {
+		if v == nil || seen[v] || depth > 10 || v.Referrers() == nil {
+			return false
+		}
+		seen[v] = true
+		for _, r := range *v.Referrers() {
+			switch u := r.(type) {
+			case *ssa.Return, *ssa.Send, *ssa.MapUpdate:
+				return true
+			case *ssa.Phi, *ssa.MakeInterface, *ssa.ChangeInterface, *ssa.ChangeType, *ssa.Extract, *ssa.TypeAssert:
+				if flows(u.(ssa.Value), seen, depth+1) {
+					return true
+				}
+			case *ssa.Store:
+				if u.Val != v {
+					continue
+				}
+				switch a := u.Addr.(type) {
+				case *ssa.Alloc:
+					for _, rr := range *a.Referrers() {
+						if ld, ok := rr.(*ssa.UnOp); ok && ld.Op == token.MUL && flows(ld, seen, depth+1) {
+							return true
+						}
+						// a captured cell read by a deferred or enclosing function: handed on
+						if _, ok := rr.(*ssa.MakeClosure); ok {
+							return true
+						}
+					}
+				case *ssa.IndexAddr:
+					// the argument list of a variadic call (wrapping)
+					if arr, ok := a.X.(*ssa.Alloc); ok {
+						for _, ar := range *arr.Referrers() {
+							if sl, ok := ar.(*ssa.Slice); ok {
+								for _, sr := range *sl.Referrers() {
+									if call, ok := sr.(*ssa.Call); ok && isErr(call.Type()) && flows(call, seen, depth+1) {
+										return true
+									}
+								}
+							}
+						}
+						continue
+					}
+					return true
+				case *ssa.FreeVar:
+					return true // a variable of the enclosing function: it decides
+				default:
+					return true // a field, a global: somebody else's business
+				}
+			case *ssa.Call:
+				// handed to a function that gives an error back (a wrapper, a fail helper): follow the result
+				if isErr(u.Type()) && flows(u, seen, depth+1) {
+					return true
+				}
+				if tup, ok := u.Type().(*types.Tuple); ok {
+					for i := 0; i < tup.Len(); i++ {
+						if isErr(tup.At(i).Type()) && flows(u, seen, depth+1) {
+							return true
+						}
+					}
+				}
+			}
+		}
+		return false
+	}
+	n := 0
+	for _, f := range w.Fns {
+		if !load.InMod(f) || f.Synthetic != "" || strings.Contains(load.PkgPath(f), "/internal/") {
+			continue
+		}
+		for _, b := range f.Blocks {
+			for _, in := range b.Instrs {
+				call, ok := in.(*ssa.Call)
+				if !ok {
+					continue
+				}
+				cc := call.Common()
+				isW := false
+				if cc.IsInvoke() {
+					isW = (cc.Method.Name() == "Write" || cc.Method.Name() == "WriteMultiple") && strings.HasSuffix(cc.Value.Type().String(), "diskstore.DiskStore")
+				} else if g := cc.StaticCallee(); g != nil && (g.Name() == "Write" || g.Name() == "WriteMultiple") && strings.HasSuffix(load.PkgPath(g), "/diskstore") && g.Signature.Recv() != nil {
+					isW = true
+				}
+				if !isW || !isErr(call.Type()) {
+					continue
+				}
+				n++
+				props := []string{"C07"}
+				if strings.HasSuffix(load.PkgPath(f), "/cluster") {
+					props = []string{"C07", "C14"}
+				}
+				key := "tx-outcome:" + load.FnKey(f)
+				if flows(call, map[ssa.Value]bool{}, 0) {
+					c.Add("ERRS", key, core.OK, w.At(in), "", props...)
+				} else {
+					c.Add("ERRS", key, core.Violation, w.At(in), "the error a write transaction ends with never reaches a return of the function that ran it (it is at most logged): a transaction that was rolled back is reported as a success — the sender of migrated records then deletes its copies, an insert is acknowledged", props...)
+				}
+			}
+		}
+	}
+	if n < 6 {
+		c.Add("ERRS", "anchor:tx-outcomes", core.Undecided, "", fmt.Sprintf("found %d calls of the store's Write, expected at least 6", n), "C07")
+	}
 }
